@@ -48,6 +48,13 @@ def run(chk):
             extra.append(dict(c, name=c["name"] + "-o", one_u=nb))            # every neighbour of the focal vertex has u = 1
         if i % 8 == 2 and len(others) >= 2:
             extra.append(dict(c, name=c["name"] + "-zo", zero_u=[others[0]], one_u=[others[-1]]))
+    for i, c in enumerate(list(cases)):
+        others = [v for v in c["V"] if v != c["root"]]
+        if i % 6 == 3 and len(others) >= 2:
+            # every non-focal vertex carries a number and their product is exactly 1 (2 * 1/2 * 1 ...)
+            extra.append(dict(c, name=c["name"] + "-n", two_u=[others[0]], half_u=[others[1]], one_u=others[2:]))
+        if i % 6 == 5 and len(others) >= 3:
+            extra.append(dict(c, name=c["name"] + "-m", two_u=[others[0]], half_u=[others[-1]]))
     cases += extra
     for i, c in enumerate(cases):
         # a fresh evaluator per case; every second case reuses the SAME motif name on its own evaluator (names only have
